@@ -6,13 +6,44 @@
    - [canon n s]: the canonical trie of a set of n-byte elements, built directly from the set
      (one element -> a leaf holding it; otherwise one child per occurring first byte, in
      byte order); the canonical hash of the set is [root_hash H (canon_set s)]. *)
-From Coq Require Import List NArith ZArith Bool String.
+From Coq Require Import List NArith ZArith Bool String Sorted.
 From Verif.lib Require Import Term.
 From Verif.model Require Import MerkleTrie MerkleTrieSha.
 Import ListNotations.
 Open Scope N_scope.
 
 Definition kset := list key.                  (* a finite set of elements; order irrelevant *)
+
+(* the elements stored in a trie *)
+Fixpoint elems (t : trie) {struct t} : list key :=
+  match t with
+  | Leaf h => [h]
+  | Node cs => flat_map (fun p => map (cons (fst p)) (elems (snd p))) cs
+  end.
+
+Definition bytes_ok (k : key) : Prop := Forall (fun b => b < 256) k.
+
+Definition not_single_leaf (cs : list (N * trie)) : Prop :=
+  match cs with [(_, Leaf _)] => False | _ => True end.
+
+(* canonical shape for elements of n bytes: children strictly sorted by index, every
+   subtree non-empty, and no node whose only child is a leaf ("our tree forbids nodes that
+   have exactly one leaf child and no other children", node.go) *)
+Fixpoint wf (n : nat) (t : trie) {struct t} : Prop :=
+  match t with
+  | Leaf h => List.length h = n /\ bytes_ok h
+  | Node cs =>
+      match n with
+      | O => False
+      | S n' =>
+          cs <> [] /\ StronglySorted N.lt (map fst cs) /\ not_single_leaf cs /\
+          (fix all (l : list (N * trie)) : Prop :=
+             match l with
+             | [] => True
+             | (i, c) :: l' => (i < 256 /\ wf n' c) /\ all l'
+             end) cs
+      end
+  end.
 
 Definition mem (k : key) (s : kset) : bool := existsb (key_eqb k) s.
 Definition set_del (k : key) (s : kset) : kset := filter (fun x => negb (key_eqb k x)) s.
@@ -79,6 +110,25 @@ Fixpoint srun (s : sstate) (ops : list op) : sstate * list res :=
   | o :: ops' => let '(s1, r) := sstep s o in
                  let '(s2, rs) := srun s1 ops' in (s2, r :: rs)
   end.
+
+(* ---------- relating the trie-level machine (model/MerkleTrie.v) to the set-level one ---------- *)
+Definition keys_ok (n : nat) (s : kset) : Prop :=
+  forall k, In k s -> List.length k = n /\ bytes_ok k.
+
+(* the stored trie is a canonical trie holding exactly the elements of s *)
+Definition rel (st : tstate) (s : kset) : Prop :=
+  match t_root st with
+  | None => s = []
+  | Some t => s <> [] /\ keys_ok (t_elen st) s /\ wf (t_elen st) t /\
+              (forall k, In k (elems t) <-> In k s)
+  end.
+
+Definition Rel (m : mstate) (s : sstate) : Prop :=
+  rel (m_cur m) (s_cur s) /\ rel (m_committed m) (s_committed s) /\ m_modified m = s_modified s.
+
+(* elements are byte strings *)
+Definition op_ok (o : op) : Prop :=
+  match o with OAdd k | ODel k => bytes_ok k | _ => True end.
 
 (* ---------- executable equalities ---------- *)
 Fixpoint trie_eqb (a b : trie) {struct a} : bool :=
@@ -157,7 +207,26 @@ Definition term_of_otrie (o : option trie) : term :=
 Definition count_true (rs : list res) : nat :=
   List.length (filter (fun r => match r with RBool true => true | _ => false end) rs).
 
-(* case = (seq (cfg ...) (ops ...) (obs ...) (set k1 k2 ...) root fresh shape hashing)
+(* signature of the finding "evict_drops_partial_last_page" (cache.evict released the partially
+   filled, already committed page that the next node id falls into; the next commit rewrote it
+   without its committed nodes): the harness saw that precondition ([dropped] = 1) AND the only
+   deviation is a storage error ("page N is missing" / "loaded page is missing a node"):
+   either the last executed op returned it and everything before agrees with the property, or
+   all results agree and the stored trie can no longer be read back completely. *)
+Definition ends_ioerr (obs sterms : list term) : bool :=
+  match rev obs with
+  | TS "ioerr" :: pre => term_eqb (TL (rev pre)) (TL (firstn (List.length pre) sterms))
+  | _ => false
+  end.
+
+Fixpoint has_ioerr (t : term) : bool :=
+  match t with
+  | TS "ioerr" => true
+  | TL l => existsb has_ioerr l
+  | _ => false
+  end.
+
+(* case = (seq (cfg ...) (ops ...) (obs ...) (set k1 k2 ...) root fresh shape hashing dropped)
      cfg      the MemoryConfig used (invisible to model and spec)
      obs      the implementation's result per op
      set      the harness's own bookkeeping of the final element set
@@ -167,7 +236,7 @@ Definition count_true (rs : list res) : nat :=
      hashing  1: digests are recomputed with the Gallina SHA-512/256 and compared *)
 Definition check (t : term) : term :=
   match t with
-  | TL [TS "seq"; TL _; TL ops; TL obs; TL (TS "set" :: setl); TB root; TB fresh; shape; TZ hf] =>
+  | TL [TS "seq"; TL _; TL ops; TL obs; TL (TS "set" :: setl); TB root; TB fresh; shape; TZ hf; TZ dropped] =>
       match map_opt op_of_term ops, map_opt as_bytes setl with
       | Some ops, Some hset =>
           let hashing := Z.eqb hf 1 in
@@ -190,8 +259,11 @@ Definition check (t : term) : term :=
             term_eqb (TL obs') (TL mterms)
             && (negb hashing || list_eqb N.eqb root mroot)
             && term_eqb shape (term_of_otrie mfinal) in
-          verdict spec_ok corr (Nat.leb 2 (count_true sres))
-                  (TL [TL mterms; term_of_otrie mfinal; TB mroot])
+          let detail := TL [TL mterms; term_of_otrie mfinal; TB mroot] in
+          if (negb spec_ok || negb corr) && Z.eqb dropped 1 &&
+             (ends_ioerr obs' sterms || (term_eqb (TL obs') (TL sterms) && has_ioerr shape))
+          then v_known "evict_drops_partial_last_page" detail
+          else verdict spec_ok corr (Nat.leb 2 (count_true sres)) detail
       | _, _ => v_parse
       end
   | _ => v_parse
